@@ -394,6 +394,21 @@ func (e *emitter) block(b *ssa.BasicBlock, stop map[*ssa.BasicBlock]bool, subst 
 			if !e.okRet[b] {
 				return nil
 			}
+			// `err := f(); if err == nil { err = g() }; return err`: on the way that skipped g
+			// the returned value is f's error, known to be non-nil: an error exit
+			if rs := resultsOf(x); len(rs) > 0 && isErrorType(rs[len(rs)-1].Type()) {
+				v := rs[len(rs)-1]
+				if ph, isPhi := v.(*ssa.Phi); isPhi && ph.Block() == b && prev != nil {
+					for k, pb := range b.Preds {
+						if pb == prev {
+							v = ph.Edges[k]
+						}
+					}
+				}
+				if nn[v] || nn[stripConv(v)] {
+					return nil
+				}
+			}
 			return [][]string{here}
 		}
 	}
